@@ -23,12 +23,12 @@ RULE = ('a pool of K public calls (validate/is_valid/compact/format/getters/conv
         'validate once more at the end, outcomes must be equal; non-trivial = sequences containing a '
         'mutation followed by a call, thread trials where first uses raced; distinct by (worker seed, sequence index) and (trial)')
 ASSUME = ['thread schedules are not controlled by the harness (stress only); the history/aliasing part is a model-based search',
-          'same PYTHONHASHSEED and frozen clock in every process', 'eu.vat.guess_country compared as a set']
+          'same PYTHONHASHSEED (0) and frozen clock in every process except in the hash-seed part, which varies PYTHONHASHSEED only', 'eu.vat.guess_country compared as a set']
 WORKER = [sys.executable, '-m', 'vf.c13worker']
 
 
-def run_job(job, timeout=600):
-    env = dict(os.environ, PYTHONHASHSEED='0', VERIF_REPO=core.REPO)
+def run_job(job, timeout=600, hashseed='0'):
+    env = dict(os.environ, PYTHONHASHSEED=str(hashseed), VERIF_REPO=core.REPO)
     p = subprocess.run(WORKER, input=json.dumps(job).encode(), stdout=subprocess.PIPE, stderr=subprocess.PIPE, cwd=core.VERIF, env=env, timeout=timeout)
     out = p.stdout.decode('utf-8', 'replace')
     if '@@RESULT@@' not in out:
@@ -75,6 +75,13 @@ def build_pool(seed, k):
             for fn in fns:
                 fixed.append(call(mn, fn, v))
     fixed.append(call('gs1_128', 'encode', {'01': '38425876095074', '17': core._real_datetime.date(2018, 11, 19), '37': 1}))
+    # element strings whose decoded values are equal (==, same hash) but spelt with a different number of decimals: a memo keyed
+    # on the decoded value answers one with the other's encoding
+    for fam in ('310', '392'):
+        for nd in range(0, 4):
+            body = str(17 * 10 ** nd).zfill(6) if fam == '310' else str(17 * 10 ** nd)
+            fixed.append(call('gs1_128', 'validate', '%s%d%s' % (fam, nd, body)))
+            fixed.append(call('gs1_128', 'info', '%s%d%s' % (fam, nd, body)))
     for mn in ['iban', 'eu.vat', 'vatin']:
         for v in gen.pool(mn)[:40]:
             fixed.append(call(mn, 'validate', v))
@@ -152,6 +159,7 @@ def build_pool(seed, k):
         for b in bad:
             optional.append(call(name, 'validate', b))
     rnd.shuffle(optional)
+    build_pool.full = fixed + optional
     pool = fixed + optional[:max(0, k - len(fixed))]
     pool.sort(key=lambda s: (s['m'], s['f']))
     return pool
@@ -194,6 +202,17 @@ def prop_hist(case, res):
             res.violation('history|%s.%s|differs-from-fresh-interpreter' % (s['m'], s['f']), 'hist', case,
                           {'call': s, 'got': g[:200], 'fresh': want[:200], 'history_steps': len(steps)})
             return
+
+
+def prop_hashseed(case, res):
+    """One call in fresh interpreters that differ only in the string hash seed."""
+    res.evals += 1
+    s = case['call']
+    a = run_job({'mode': 'seq', 'steps': [s]}, hashseed=0)['outcomes'][0]
+    b = run_job({'mode': 'seq', 'steps': [s]}, hashseed=case['hashseed'])['outcomes'][0]
+    if a != b:
+        res.violation('hashseed|%s.%s|differs-between-fresh-interpreters' % (s['m'], s['f']), 'hashseed', case,
+                      {'call': s, 'PYTHONHASHSEED=0': a[:200], 'PYTHONHASHSEED=%s' % case['hashseed']: b[:200]})
 
 
 def prop_threads(case, res):
@@ -283,7 +302,7 @@ def shard_repeat(a):
     return res
 
 
-SUBS = {'hist': prop_hist, 'threads': prop_threads, 'repeat': prop_repeat}
+SUBS = {'hist': prop_hist, 'threads': prop_threads, 'repeat': prop_repeat, 'hashseed': prop_hashseed}
 
 
 def run(ctx):
@@ -366,6 +385,21 @@ def run(ctx):
                         steps = ddmin(steps, fails)
                         prop_hist({'steps': steps}, res)
                         break
+            # (1c) fresh interpreters that differ only in PYTHONHASHSEED: the whole pool as one batch per seed; a call whose
+            # outcome differs from the seed-0 batch is confirmed with two single-call interpreters
+            plain = [sp for sp in build_pool.full if not sp.get('clock')]
+            res.notes['hashseed_batch_calls'] = len(plain)
+            hseeds = list(range(0, ctx.q(4, 13)))
+            batches = tp.map(lambda h: run_job({'mode': 'seq', 'steps': plain}, timeout=3000, hashseed=h)['outcomes'], hseeds)
+            for h, got in zip(hseeds[1:], batches[1:]):
+                res.hist['hashseed-batches'] += 1
+                res.evals += len(got)
+                nconf = 0
+                for sp, g0, g in zip(plain, batches[0], got):
+                    if g != g0 and nconf < 5:
+                        nconf += 1
+                        prop_hashseed({'call': sp, 'hashseed': h}, res)
+                res.nt('hashseed', h)
             # (2) thread trials
             rnd = random.Random(core.subseed(ctx.seed, 'C13', 'threads'))
             trials = []
